@@ -64,7 +64,32 @@ CASES = [
     ("opaque-sum", "fn f(m: &BTreeMap<K, u64>) -> u64 { m.values().sum::<u64>() }", ("expect", ["Rs.usum Rs.U64_MAX (m.map (fun kv => kv.2))"])),
     ("findalias", "pub struct T { pub id: u32, pub on: bool }\nimpl T { fn set(&mut self, b: bool) { self.on = b; } }\npub struct W { pub ts: Vec<T> }\nimpl W { fn f(&mut self, id: u32) { let h = self.ts.iter_mut().find(|h| h.id == id).expect(\"x\"); h.set(true); } }",
      ("expect", ["Rs.unwrap (self.ts.findIdx? (fun h => (h.id == id)))", "Rs.index self.ts i_1", "T.set", "Rs.setIndex self.ts i_1"]), ("W", "f")),
+    ("copyslice", "fn f(p: &[u8], x: u64) -> Vec<u8> { let mut n = [0u8; 4 + 8]; n[0..4].copy_from_slice(p); n[4..].copy_from_slice(&x.to_le_bytes()); n.to_vec() }",
+     ("expect", ["List.replicate 12 0", "Rs.copyFromSlice n 0 4 p", "Rs.copyFromSlice n 4 n.length (Rs.toLeBytes 8 x)"])),
+    ("newtype", "pub struct Id(pub Vec<u8>);\nimpl Id { fn mk(v: &[u8]) -> Self { Self(v.to_vec()) }\n fn len(self) -> usize { self.0.len() } }",
+     ("expect", ["def Id.len (self : List Nat) : Nat", "self.length"]), ("Id", "len")),
+    ("lockexpr", "pub struct G { pub st: Mutex<S> }\nimpl G { fn get(&self) -> MutexGuard<'_, S> { self.st.lock().expect(\"l\") }\n fn f(&self) -> u64 { let s = self.get(); s.a + self.st.lock().unwrap().a } }",
+     ("expect", ["let s := (G.get self)", "Rs.uadd Rs.U64_MAX s.a self.st.a"]), ("G", "f")),
+    ("extfield", "pub struct C<L> { pub local: L, pub n: u64 }\nimpl<L> C<L> { fn f(&self, k: &str) -> Result<u64, Error> { let v = self.local.get_version(k)?; Ok(v.unwrap_or(0) + self.n) } }",
+     ("expect", ["(ext_local_get_version : L → String → Rs.M (Option Nat))", "let v ← ext_local_get_version self.«local» k"]), ("C", "f"),
+     {"local.get_version": {"params": ["&str"], "ret": "Result<Option<u64>, Error>"}}),
+    ("litfold", "fn f(x: u64) -> u64 { x << 8 * 7 }", ("expect", ["Rs.ushl 64 x 56"])),
+    ("entry2", "pub struct H { pub p: K2, pub v: u64 }\nfn f(hs: &[H]) -> BTreeMap<K2, u64> { let mut m = BTreeMap::new(); for h in hs { m.entry(h.p).and_modify(|e| *e += h.v).or_insert(h.v); } m }",
+     ("expect", ["match (Rs.omapGet m h.p) with", "| some e =>", "Rs.uadd Rs.U64_MAX e h.v", "Rs.omapInsert m h.p e", "Rs.omapInsert m h.p h.v"])),
+    ("entryloop", "fn f(a: BTreeMap<K2, u64>, b: BTreeMap<K2, u64>) -> BTreeMap<K2, u64> { let mut m = a; for (k, v) in b { m.entry(k).and_modify(|e| *e = max(*e, v)).or_insert(v); } m }",
+     ("expect", ["List.foldl", "(max e v)", "Rs.omapInsert m k v"])),
+    ("mapretain", "fn f(a: BTreeMap<K2, u64>, b: BTreeMap<K2, u64>) -> BTreeMap<K2, u64> { let mut m = a; m.retain(|k, _| b.contains_key(k)); m }",
+     ("expect", ["m.filter (fun (k, _) => (Rs.omapGet b k).isSome)"])),
+    ("lockcallee", "pub struct G { pub st: Mutex<S> }\nimpl G { fn bump(&self, x: u64) -> Result<(), ()> { let mut s = self.st.lock().unwrap(); if x == 0 { return Err(()); } s.a = x; Ok(()) }\n fn all(&self, xs: Vec<u64>) -> Result<(), ()> { for x in xs.into_iter() { self.bump(x)?; } Ok(()) } }",
+     ("expect", ["List.foldlM (fun self x => do", "let self ← G.bump self x"]), ("G", "all")),
+    ("vecunder", "fn f(v: &[u32]) -> usize { let w: Vec<_> = v.iter().map(|x| *x).collect(); w.len() }", ("expect", ["w.length"])),
     # ---- refused (fail closed)
+    ("r-entryloop-partial", "fn f(a: BTreeMap<K2, u64>, b: BTreeMap<K2, u64>) -> BTreeMap<K2, u64> { let mut m = a; for (k, v) in b { m.entry(k).and_modify(|e| *e += v).or_insert(v); } m }",
+     ("refuse", "order the model does not know")),
+    ("r-entryloop-otherkey", "fn f(a: BTreeMap<K2, u64>, b: BTreeMap<K2, K2>) -> BTreeMap<K2, u64> { let mut m = a; for (k, v) in b { m.entry(v).or_insert(0); } m }",
+     ("refuse", "order the model does not know")),
+    ("r-guard-write", "pub struct G { pub st: Mutex<S> }\nimpl G { fn get(&self) -> MutexGuard<'_, S> { self.st.lock().expect(\"l\") }\n fn f(&self) { let mut s = self.get(); s.a = 1; } }",
+     ("refuse", "write through the MutexGuard"), ("G", "f")),
     ("r-loop", "fn f() -> u32 { let mut i = 0u32; loop { i += 1; if i > 3 { break; } } i }", ("refuse", "`loop`")),
     ("r-while", "fn f(mut n: u32) -> u32 { while n > 1 { n = n / 2; } n }", ("refuse", "counted form")),
     ("r-while-bound", "fn f(v: &mut Vec<u32>) { let mut i = 0usize; while i < v.len() { v.push(1); i += 1; } }", ("refuse", "counted form")),
@@ -101,7 +126,8 @@ def run(verbose=False):
         name, src, (kind, arg) = case[0], case[1], case[2]
         target = case[3] if len(case) > 3 else (None, "f")
         try:
-            u = Unit("/nonexistent", "<test:%s>" % name, "VlsModel.Test", src=PRE + src)
+            u = Unit("/nonexistent", "<test:%s>" % name, "VlsModel.Test", src=PRE + src,
+                     externals=case[4] if len(case) > 4 else None)
             u.get_fn(*target)
             text = u.emit()
             if kind == "refuse":
